@@ -30,8 +30,13 @@ def handle (op : String) (j : Json) : Option Json :=
             let levels := match j.getObjVal? "levels" with
               | .ok (.arr a) => some (a.toList.filterMap (fun x => match x with | .str s => some s | _ => none))
               | _ => none
+            let shape : List Nat := (getArr j "shape").filterMap (fun x => x.getNat?.toOption)
             some (Json.mkObj [("has_response", true),
                               ("holds", Spec.C15.holds ex m levels (getStr j "kind")),
+                              ("shape_holds", Spec.C15.shapeHolds ex shape),
+                              ("bare_numeric", Spec.C15.isBare r && ex.kind == "numeric"),
+                              ("unchanged", Spec.C15.unchanged ex m),
+                              ("expected_rows", ex.matrix.length),
                               ("expected_levels", match ex.levels with | some l => jStrs l | none => Json.null),
                               ("expected_kind", ex.kind)])
   | "c15_predict" =>
